@@ -97,6 +97,38 @@ var verifC15Src = []string{
 	   @inner := (select count(*) from tt);
 	 end if;
 	 @outer := (select count(*) from tt);`,
+	// 14: a parameter default may refer to the parameters before it: they are bound first, and they are
+	// those of this invocation (not a global of the same name, not the calling invocation's)
+	`var @k := 100;
+	 declare tw function (@k, @m default @k * 2) as begin return @m; end;
+	 var @r1 := tw(@n);
+	 declare tr function (@k, @tag default @k) as begin
+	   if @k <= 0 then return @tag; end if;
+	   var @in := tr(@k - 1);
+	   return @in * 10 + @tag;
+	 end;
+	 var @r2 := tr(@n);
+	 declare td function (@p default 7, @q default @p + 1) as begin return @p * 100 + @q; end;
+	 var @r3 := td(); var @r4 := td(@n);`,
+	// 15: after a user-defined aggregate has run, nested blocks still get scopes of their own
+	`declare total aggregate (c) as begin
+	   var @s := 0; var @v;
+	   while @v in c do @s := @s + @v; end while;
+	   return @s;
+	 end;
+	 var @sum := (select total(id) from t);
+	 var @sum2 := (select total(id) from t where id < 3);
+	 var @deep := 0; var @mid := 0; var @top := 0; var @after := 0;
+	 if 1 = 1 then
+	   var @lv := 1;
+	   if 1 = 1 then
+	     var @lv := 2;
+	     if 1 = 1 then var @lv := 3; @deep := @lv; end if;
+	     @mid := @lv;
+	   end if;
+	   @top := @lv;
+	 end if;
+	 if 1 = 1 then var @lv := 9; @after := @lv; end if;`,
 }
 
 var verifC15Progs [][]parser.Statement
@@ -234,6 +266,19 @@ func VerifC15Programs() {
 		verifAssert("a sibling block sees the outer function", get("r1") == d)
 		verifAssert("a later invocation sees the outer function", get("r2") == 11)
 		verifAssert("a later block may declare its own function of that name", get("r3") == 7*c)
+	case 14:
+		verifAssert("a default sees the parameter bound before it, not a global of that name", get("r1") == 2*n)
+		var want int64
+		for k := int64(1); k <= n; k++ {
+			want = want*10 + k
+		}
+		verifAssert("a default in a recursive function sees its own invocation's parameter", get("r2") == want)
+		verifAssert("defaults that build on defaults", get("r3") == 708 && get("r4") == n*100+n+1)
+		verifAssert("the global of the same name is untouched", get("k") == 100)
+	case 15:
+		verifAssert("the aggregate sees its rows", get("sum") == 6 && get("sum2") == 3)
+		verifAssert("nested blocks shadow level by level after an aggregate has run", get("deep") == 3 && get("mid") == 2 && get("top") == 1 && get("after") == 9)
+		verifAssert("block variables are gone", !verifHasVar(scope, "lv") && !verifHasVar(scope, "s"))
 	case 10, 11:
 		var i, sum int64
 		for i < n {
